@@ -269,6 +269,18 @@ def s_case(draw, max_len=6, worm='maybe', locking=None, histories=('run', 'run+c
         case['decoy'] = True
     if draw(st.integers(0, 7)) == 0:
         case['deepcopy'] = True
+    if draw(st.integers(0, 5)) == 0:
+        n_el = len(case['chain']) + 1
+        kinds = {'inertia_moment': 'InertiaMoment', 'no_load_speed': 'AngularSpeed', 'maximum_torque': 'Torque',
+                 'no_load_electric_current': 'Current', 'maximum_electric_current': 'Current',
+                 'module': 'Length', 'face_width': 'Length', 'elastic_modulus': 'Stress', 'reference_diameter': 'Length'}
+        rx = []
+        for _ in range(draw(st.integers(1, 3))):
+            a_ = draw(st.sampled_from(sorted(kinds)))
+            i_ = 0 if a_ in ('no_load_speed', 'maximum_torque', 'no_load_electric_current', 'maximum_electric_current') \
+                else draw(st.integers(0, n_el - 1))
+            rx.append([i_, a_, draw(s_unit(kinds[a_]))])
+        case['reexpress'] = rx
     h = draw(st.sampled_from(list(histories)))
     run1 = s_run(draw, mdl, max_steps=max_steps, nonmultiple=nonmultiple)
     if h == 'run':
